@@ -29,6 +29,7 @@ def source_ctxs(tier, seed):
         dict(fam='EFloat', es=3, nbits=5, enable_inf=False, nan_kind='NONE', eoffset=-1),
         dict(fam='Fixed', signed=True, scale=-1, nbits=5), dict(fam='Fixed', signed=False, scale=0, nbits=4), dict(fam='SMFixed', scale=-2, nbits=5),
         dict(fam='MPFixed', nmin=-2), dict(fam='MPBFixed', nmin=-1, maxval=[0, 0, 9], neg_maxval=[1, 0, 4]),
+        dict(fam='MPBFixed', nmin=-1, maxval=[0, 0, 4], neg_maxval=[1, 0, 9], enable_inf=True, always=True),
     ]
     if tier == 'thorough':
         ds += [dict(fam='IEEE', es=4, nbits=8), dict(fam='MPSFloat', pmax=1, emin=0), dict(fam='MPBFloat', pmax=3, emin=-1, maxval=[0, 0, 6], neg_maxval=[1, 2, 5]),
@@ -48,9 +49,9 @@ def tasks(tier, seed):
         for ov in ovs:
             for rm in modes:
                 k += 1
-                if tier == 'quick' and (k + seed) % 4 != 0:
+                if tier == 'quick' and (k + seed) % 4 != 0 and not (d.get('always') and ov == 'OVERFLOW' and rm in ('RNE', 'RTZ')):
                     continue
-                dd = dict(d, rm=rm)
+                dd = {k_: v_ for k_, v_ in dict(d, rm=rm).items() if k_ != 'always'}
                 if ov:
                     dd['ov'] = ov
                 for s in (0, 1):
@@ -59,9 +60,12 @@ def tasks(tier, seed):
     # elim_round / insert_round on two-stage programs
     pairs = [(dict(fam='MPSFloat', pmax=3, emin=-2), dict(fam='IEEE', es=3, nbits=7)), (dict(fam='IEEE', es=2, nbits=5), dict(fam='MPFloat', pmax=3)),
              (dict(fam='Fixed', signed=True, scale=-1, nbits=4), dict(fam='MPSFloat', pmax=4, emin=-1)), (dict(fam='MPFloat', pmax=2), dict(fam='MPFloat', pmax=1)),
-             (dict(fam='Fixed', signed=True, scale=0, nbits=4), dict(fam='Fixed', signed=True, scale=-1, nbits=6, ov='SATURATE')), (dict(fam='MPSFloat', pmax=3, emin=-2), dict(fam='MPSFloat', pmax=3, emin=-1))]
+             (dict(fam='Fixed', signed=True, scale=0, nbits=4), dict(fam='Fixed', signed=True, scale=-1, nbits=6, ov='SATURATE')), (dict(fam='MPSFloat', pmax=3, emin=-2), dict(fam='MPSFloat', pmax=3, emin=-1)),
+             (dict(fam='Fixed', signed=True, scale=0, nbits=3), dict(fam='Fixed', signed=True, scale=0, nbits=7))]
     for i, (c1, c2) in enumerate(pairs):
-        for body in ('round', 'add', 'mul', 'neg', 'sub'):
+        for body in ('round', 'add', 'mul', 'neg', 'sub', 'mul2', 'add2', 'sub2'):
+            if body.endswith('2') and not (c2['fam'] == 'Fixed' or i == 0):
+                continue            # two-operand bodies: the scopes without a negative zero, and one float pair
             for s in (0, 1):
                 ts.append(dict(kind='elim', name='elim_round/%d/%s/s%d' % (i, body, s), c1=dict(c1, rm='RNE'), c2=dict(c2, rm='RNE'), body=body, s=s, cost=3))
     return ts
@@ -94,6 +98,11 @@ def describe(tier):
 def _src(nstage=1, body='round'):
     if nstage == 1:
         return "@fp.fpy\ndef q(x: fp.Real) -> fp.Real:\n    with CTX:\n        y = fp.round(x)\n    return y\n"
+    if body.endswith('2'):
+        # two operands, so that products / sums of operands of different sign and of zeros are inside the bound
+        expr = {'mul2': 'a * d', 'add2': 'a + d', 'sub2': 'a - d'}[body]
+        return ("@fp.fpy\ndef q(x: fp.Real, y: fp.Real) -> fp.Real:\n    with CTX1:\n        a = fp.round(x)\n        d = fp.round(y)\n"
+                "    with CTX2:\n        b = %s\n    return b\n" % expr)
     expr = {'round': 'fp.round(a)', 'add': 'a + a', 'mul': 'a * a', 'neg': '-a', 'sub': 'a - a'}[body]
     return "@fp.fpy\ndef q(x: fp.Real) -> fp.Real:\n    with CTX1:\n        a = fp.round(x)\n    with CTX2:\n        b = %s\n    return b\n" % expr
 
@@ -112,6 +121,22 @@ def lowerings(q):
                 refused += len(st.refusals(getattr(st, name), q))
         except (TransformDeclined, TransformError):
             refused += 1
+    # the early-check form of the overflow rewrite (a test on the operand ahead of the rounding), alone and followed by the rest of the chain
+    try:
+        if len(st.sites(st.unfold_overflow, q)) > 0:
+            he = st.unfold_overflow(q, early_check=True)
+            out.append(('unfold_overflow(early_check)', he))
+            h3 = he
+            for name in CHAIN[2:]:
+                try:
+                    if len(st.sites(getattr(st, name), h3)) > 0:
+                        h3 = getattr(st, name)(h3)
+                except (TransformDeclined, TransformError):
+                    pass
+            if h3 is not he:
+                out.append(('unfold_overflow(early_check)>rest', h3))
+    except (TransformDeclined, TransformError):
+        refused += 1
     h = q
     applied = []
     for name in CHAIN:
@@ -234,21 +259,26 @@ def run_task(task):
         d = denote_mag(r.c, r.exp, K, W=WO)
         return d if isinstance(d, z3.ExprRef) else z3.BitVecVal(d, WO)
 
+    two = kind == 'elim' and task['body'].endswith('2')
+
     def setup(e):
+        if two:
+            return e.fresh('c', 0, (1 << CW) - 1), e.fresh('exp', -E, E), e.fresh('cy', 0, 3), e.fresh('sy', 0, 1)
         return e.fresh('c', 1, (1 << CW) - 1), e.fresh('exp', -E, E)
 
     wit = dict(base_w)
 
-    def run(e, c, x):
+    def run(e, c, x, cy=None, sy=None):
         xo = Float(s, x, c)
+        argv = (xo,) if not two else (xo, Float(bool(sy == 1), 0, cy))
         try:
-            r0 = rt.eval(q, (xo,), None, convert=False)
+            r0 = rt.eval(q, argv, None, convert=False)
             c0 = classify(r0)
         except Exception as ex:  # noqa
             return          # the original does not return on this path: nothing to preserve
         for lab, h in lows:
             try:
-                r1 = rt.eval(h, (xo,), None, convert=False)
+                r1 = rt.eval(h, argv if not two else (Float(s, x, c), Float(bool(sy == 1), 0, cy)), None, convert=False)
                 c1 = classify(r1)
             except Exception as ex:  # noqa
                 e.require(False, info={'rewrite': lab, 'lowered raised': repr(ex)[:150], 'original': c0[0]}, tag=lab)
